@@ -42,8 +42,15 @@ func (ir *IntrospectionResolver) resolveSchema(schema *ast.Schema, selectionSet 
 		switch f.Name {
 		case "types":
 			types := []map[string]interface{}{}
-			for _, t := range schema.Types {
-				types = append(types, ir.resolveType(schema, &ast.Type{NamedType: t.Name}, f.SelectionSet))
+			// walk the types by name so the order does not depend on map iteration
+			// (the payload can only be sorted afterwards when "name" is selected unaliased)
+			typeNames := make([]string, 0, len(schema.Types))
+			for name := range schema.Types {
+				typeNames = append(typeNames, name)
+			}
+			sort.Strings(typeNames)
+			for _, name := range typeNames {
+				types = append(types, ir.resolveType(schema, &ast.Type{NamedType: schema.Types[name].Name}, f.SelectionSet))
 			}
 			sortPayload(types)
 			result[f.Alias] = types
@@ -55,8 +62,13 @@ func (ir *IntrospectionResolver) resolveSchema(schema *ast.Schema, selectionSet 
 			result[f.Alias] = ir.resolveType(schema, &ast.Type{NamedType: "Subscription"}, f.SelectionSet)
 		case "directives":
 			directives := []map[string]interface{}{}
-			for _, d := range schema.Directives {
-				directives = append(directives, ir.resolveDirective(schema, d, f.SelectionSet))
+			directiveNames := make([]string, 0, len(schema.Directives))
+			for name := range schema.Directives {
+				directiveNames = append(directiveNames, name)
+			}
+			sort.Strings(directiveNames)
+			for _, name := range directiveNames {
+				directives = append(directives, ir.resolveDirective(schema, schema.Directives[name], f.SelectionSet))
 			}
 			sortPayload(directives)
 			result[f.Alias] = directives
